@@ -350,3 +350,12 @@ pub fn number_to_source(value: f64) -> String {
         value.to_string()
     }
 }
+
+/// True when a variable name has to be written with a leading backslash to be read
+/// back as one name: it holds an underscore that is not part of its leading run
+/// (`x_1` would be read as `x` indexed by `1`, while `_x` is a plain name).
+pub(crate) fn is_escaped_variable_name(name: &str) -> bool {
+    name.trim_start_matches('$')
+        .trim_start_matches('_')
+        .contains('_')
+}
